@@ -100,7 +100,7 @@ def wfProofs (ty o : Nat) (rs : List Bytes) (bps : List BP) (bpps : List BPP) : 
   if ty = 4 ∨ ty = 5 then rs = [] ∧ bpps = [] ∧ VecOK sizes.bp wfBP bps
   else if ty = 3 then rs = [] ∧ bpps = [] ∧ (∀ x ∈ bps, wfBP x) ∧ bps.length * sizes.bp ≤ CAP ∧ bps.length < 2^32
   else if ty = 6 then rs = [] ∧ bps = [] ∧ (∀ x ∈ bpps, wfBPP x) ∧ bpps.length * sizes.bpp ≤ CAP ∧ bpps.length < 256
-  else bps = [] ∧ bpps = [] ∧ rs.length = o ∧ (∀ x ∈ rs, x.length = 6176) ∧ o * 6176 ≤ CAP
+  else bps = [] ∧ bpps = [] ∧ rs.length = o ∧ (∀ x ∈ rs, x.length = 6176) ∧ o * sizes.rangesig ≤ CAP
 
 theorem foldr_leBytes (n k : Nat) (h : n < 256 ^ k) :
     (leBytes n k).foldr (fun x acc => x.toNat + 256 * acc) 0 = n := by
@@ -160,7 +160,7 @@ theorem complete_proofs (ty o : Nat) (rs : List Bytes) (bps : List BP) (bpps : L
       · simp only [h6, if_false] at h ⊢
         obtain ⟨rfl, rfl, hl, hw, hc⟩ := h
         subst hl
-        rw [bind_eq (complete_sized 6176 (fun x : Bytes => x.length = 6176) id (takeN 6176) (complete_takeN 6176) rs r hw hc)]; rfl
+        rw [bind_eq (complete_sized sizes.rangesig (fun x : Bytes => x.length = 6176) id (takeN 6176) (complete_takeN 6176) rs r hw hc)]; rfl
 
 def wfClsag (m : Nat) (c : Clsag) : Prop := c.s.length = m + 1 ∧ (∀ k ∈ c.s, Key32 k) ∧ Key32 c.c1 ∧ Key32 c.D
 theorem complete_clsag (m : Nat) : Complete (wfClsag m) encClsag (clsagDec m) := by
